@@ -16,7 +16,7 @@ use crate::c02::{coords_arg, gen_sources, geo_arg, zoom_arg};
 use crate::common::*;
 use crate::tsrc::*;
 use serde_json::json;
-use versatiles_core::{types::*, utils::decompress};
+use versatiles_core::types::*;
 
 const RULE: &str = "2-4 PBF sources over a common pool of coordinates (random subsets: overlapping, disjoint and private tiles; dropped zoom levels; compressions drawn independently from none/gzip/brotli; kinds memory/versatiles/pmtiles/mbtiles/tar/directory), overlaid in list order, optionally with a filter below one source and a filter above the overlay; plus overlays of one source and of mixed tile formats (error expected). Coordinates: every tile coordinate of every source, neighbours, random coordinates up to zoom 31; boxes sampled across coverage and block borders, empty encodings, levels without tiles. non-trivial = at least two sources have a tile at one of the coordinates and at least one coordinate falls through to a later source (lookups) / box partially overlaps the union coverage or crosses a block border (streams)";
 
@@ -112,9 +112,14 @@ fn check_overlay(rt: &tokio::runtime::Runtime, out: &mut Out, w: &World, k: usiz
 			(Ok(Ok(None)), Some((i, _))) => Some(("tile_missing", format!("source {i} has a tile, the overlay returns none"))),
 			(Ok(Ok(Some(_))), None) => Some(("tile_invented", "no source has a tile, the overlay returns one".to_string())),
 			(Ok(Ok(Some(a))), Some((i, b))) => {
-				let da = decompress(a.clone(), &params.tile_compression);
-				let db = decompress(b.clone(), &comps[*i]);
+				// decoded independently of the code under test; the expected content also from the tile spec
+				let da = indep_decompress(a.as_slice(), params.tile_compression).ok_or(());
+				let db = indep_decompress(b.as_slice(), comps[*i]).ok_or(());
+				let spec_raw = w.specs[*i].tiles.get(&(c.z, c.x, c.y)).map(|idv| make_blob(*idv));
 				match (da, db) {
+					(Ok(x), Ok(_)) if spec_raw.as_ref().map_or(false, |r| r.as_slice() != x.as_slice()) => {
+						Some(("wrong_content", format!("the decoded tile ({} bytes) is not the stored tile of source {i} ({} bytes)", x.len(), spec_raw.map_or(0, |r| r.len()))))
+					}
 					(Ok(x), Ok(y)) if x.as_slice() == y.as_slice() => {
 						if comps[*i] == params.tile_compression && a.as_slice() != b.as_slice() {
 							Some(("bytes_changed", format!("source {i} already has the declared compression but the bytes differ")))
